@@ -17,7 +17,7 @@ EnvVal = z3.Function("EnvVal", S, S)
 def inv_config(S_, c):
     h = S_.new
     cu = h.f(c, "ConfigService.__custom")
-    return And(Or(Val.is_VNone(cu), S_.pre(cu, "dict")),
+    return And(Or(Val.is_VNone(cu), S_.pre(cu, "dict")), S_.pre(h.f(c, "_tracepoint_config"), "TracepointConfigService"),
                S_.pre(h.f(c, "_plugins"), "list"), h.llen(h.f(c, "_plugins")) >= 0, S_.elems(h.f(c, "_plugins"), HOSTOBJ))
 
 
